@@ -109,19 +109,20 @@ var splitRe = regexp.MustCompile(`ac3\.SamplesPerFrame|mpeg4audio\.SamplesPerAcc
 
 // (file, piece-length token) pairs of the tree and the call-site ids of sites_impl.go that drive them.
 var splitCovered = map[string][]string{
-	"internal/protocols/mpegts/from_stream.go|ac3.SamplesPerFrame":              {"mpegts.FromStream/AC3"},
-	"internal/protocols/mpegts/to_stream.go|mpeg4audio.SamplesPerAccessUnit":    {"mpegts.ToStream/MPEG4AudioLATM"},
-	"internal/recorder/format_mpegts.go|ac3.SamplesPerFrame":                    {"recorder.formatMPEGTS/AC3"},
-	"internal/recorder/format_fmp4.go|ac3.SamplesPerFrame":                      {"recorder.formatFMP4/AC3"},
-	"internal/recorder/format_fmp4.go|mpeg4audio.SamplesPerAccessUnit":          {"recorder.formatFMP4/MPEG4Audio"},
-	"internal/recorder/format_fmp4.go|PacketDuration2":                          {"recorder.formatFMP4/Opus"},
-	"internal/recorder/format_fmp4.go|.SampleCount()":                           {"recorder.formatFMP4/MPEG1Audio"},
-	"internal/protocols/rtmp/from_stream.go|ac3.SamplesPerFrame":                {"rtmp.FromStream/AC3"},
-	"internal/protocols/rtmp/from_stream.go|mpeg4audio.SamplesPerAccessUnit":    {"rtmp.FromStream/MPEG4Audio"},
-	"internal/protocols/rtmp/from_stream.go|PacketDuration2":                    {"rtmp.FromStream/Opus"},
-	"internal/protocols/rtmp/from_stream.go|.SampleCount()":                     {"rtmp.FromStream/MPEG1Audio"},
-	"internal/protocols/moq/from_stream.go|mpeg4audio.SamplesPerAccessUnit":     {"moq.FromStream/MPEG4Audio"},
-	"internal/protocols/webrtc/from_stream.go|PacketDuration2":                  {"webrtc.setupAudioTrack/Opus"},
+	"internal/protocols/mpegts/from_stream.go|ac3.SamplesPerFrame":           {"mpegts.FromStream/AC3"},
+	"internal/protocols/mpegts/to_stream.go|mpeg4audio.SamplesPerAccessUnit": {"mpegts.ToStream/MPEG4AudioLATM"},
+	"internal/recorder/format_mpegts.go|ac3.SamplesPerFrame":                 {"recorder.formatMPEGTS/AC3"},
+	"internal/recorder/format_fmp4.go|ac3.SamplesPerFrame":                   {"recorder.formatFMP4/AC3"},
+	"internal/recorder/format_fmp4.go|mpeg4audio.SamplesPerAccessUnit":       {"recorder.formatFMP4/MPEG4Audio"},
+	"internal/recorder/format_fmp4.go|PacketDuration2":                       {"recorder.formatFMP4/Opus"},
+	"internal/recorder/format_fmp4.go|.SampleCount()":                        {"recorder.formatFMP4/MPEG1Audio"},
+	"internal/protocols/rtmp/from_stream.go|ac3.SamplesPerFrame":             {"rtmp.FromStream/AC3"},
+	"internal/protocols/rtmp/from_stream.go|mpeg4audio.SamplesPerAccessUnit": {"rtmp.FromStream/MPEG4Audio"},
+	"internal/protocols/rtmp/from_stream.go|PacketDuration2":                 {"rtmp.FromStream/Opus"},
+	"internal/protocols/rtmp/from_stream.go|.SampleCount()":                  {"rtmp.FromStream/MPEG1Audio"},
+	"internal/protocols/moq/from_stream.go|mpeg4audio.SamplesPerAccessUnit":  {"moq.FromStream/MPEG4Audio"},
+	"internal/protocols/moq/from_stream.go|PacketDuration2":                  {"moq.FromStream/Opus"}, // absent today (the packets are not advanced), present once fixed
+	"internal/protocols/webrtc/from_stream.go|PacketDuration2":               {"webrtc.setupAudioTrack/Opus"},
 	// not a split of one unit into stamped pieces:
 	"internal/stream/offline_sub_stream_track.go|mpeg4audio.SamplesPerAccessUnit": nil, // generator of whole units paced by the wall clock
 	"internal/stream/rtp_encoder.go|PacketDuration2":                              nil, // RTP packetization on the format's own clock: property C23
